@@ -249,6 +249,87 @@ def recover (P : Params) (S : Nat) (dhl dtl : Nat) (g : Group) (h : Int) (e0 : B
     (.repaired e r w, g3)
   | (r, g1) => (.first r, g1)
 
+/-! ## a `GroupReader` that stays open while the group is written, rotated and pruned -/
+
+/-- cursor of an open `GroupReader`: file index, bytes consumed of that file, and — once the size
+limit removed the file under it — the content of the unlinked file it still holds open -/
+structure Reader where
+  idx : Nat
+  off : Nat := 0
+  pinned : Option Bytes := none
+  deriving Repr
+
+/-- what the reader's open file holds: index `maxIndex` is the head file (under the group lock, at
+the moment of each read), smaller ones are rotated files -/
+def readerContent (g : Group) (r : Reader) : Bytes :=
+  match r.pinned with
+  | some b => b
+  | none => if r.idx = g.maxIndex then g.head else (lookupFile g.files r.idx).getD []
+
+/-- `GroupReader.openFile(j)` for `j ≤ maxIndex`: `O_CREATE` -/
+def readerOpen (g : Group) (j : Nat) : Group :=
+  if j < g.maxIndex then
+    match lookupFile g.files j with
+    | some _ => g
+    | none => { g with files := setFile g.files j [] }
+  else g
+
+/-- `GroupReader.Read(p)` with `len(p) = need > 0`: fill from the current file; at its end move to
+the next index if there is one (decided under the group lock, with the live `maxIndex`), else
+return what was read together with `io.EOF`. Returns bytes, EOF flag, cursor, group. -/
+def readerRead : Nat → Group → Reader → Nat → Bytes → Bytes × Bool × Reader × Group
+  | 0, g, r, _, acc => (acc, true, r, g)
+  | fuel + 1, g, r, need, acc =>
+    let avail := (readerContent g r).drop r.off
+    let k := min need avail.length
+    let acc := acc ++ avail.take k
+    let r := { r with off := r.off + k }
+    if k = need then (acc, false, r, g)
+    else if r.idx + 1 > g.maxIndex then (acc, true, r, g)
+    else readerRead fuel (readerOpen g (r.idx + 1)) { idx := r.idx + 1 } (need - k) acc
+
+/-- `WALDecoder.Decode` on an open group reader (same branches as `decodeG`) -/
+def readerDecode (P : Params) (g : Group) (r : Reader) : DecRes × Reader × Group :=
+  let fuel := g.maxIndex + 2
+  let (c, eof1, r1, g1) := readerRead fuel g r 4 []
+  if eof1 then ((if c.isEmpty then .eof else .corrupt .crcRead), r1, g1)
+  else
+    let (lb, eof2, r2, g2) := readerRead fuel g1 r1 4 []
+    if eof2 then (.corrupt .lenRead, r2, g2)
+    else
+      let n := ofBe32 lb
+      if n > P.maxLen then (.corrupt .tooBig, r2, g2)
+      else if n = 0 then (.corrupt .dataRead, r2, g2)
+      else
+        let (d, eof3, r3, g3) := readerRead fuel g2 r2 n []
+        if eof3 then (.corrupt .dataRead, r3, g3)
+        else ((check P c d []).1, r3, g3)
+
+/-- decode up to `n` records, stop at the first non-record -/
+def readerNext (P : Params) : Nat → Group → Reader → List Bytes × Option DecRes × Reader × Group
+  | 0, g, r => ([], none, r, g)
+  | n + 1, g, r =>
+    match readerDecode P g r with
+    | (.msg d, r', g') =>
+      let (ds, e, r'', g'') := readerNext P n g' r'
+      (d :: ds, e, r'', g'')
+    | (x, r', g') => ([], some x, r', g')
+
+/-- cursor of a reader started at index `i` after it consumed `c > 0` bytes (it stays in the file
+that holds the last byte it read) -/
+def readerAfter (g : Group) : Nat → Nat → Nat → Reader
+  | 0, i, c => { idx := i, off := c }
+  | fuel + 1, i, c =>
+    let len := (readerContent g { idx := i }).length
+    if c > len ∧ i < g.maxIndex then readerAfter g fuel (i + 1) (c - len) else { idx := i, off := c }
+
+/-- the size limit removed files: readers positioned in one of them keep the unlinked content -/
+def pinReaders (g : Group) (removed : List Nat) (rs : List (String × Reader)) : List (String × Reader) :=
+  rs.map fun (n, r) =>
+    if r.pinned.isNone ∧ removed.contains r.idx ∧ r.idx ≠ g.maxIndex then
+      (n, { r with pinned := some ((lookupFile g.files r.idx).getD []) })
+    else (n, r)
+
 def lastAttempt : RecoverRes → CatchRes
   | .first r => r
   | .repaired _ r _ => r
